@@ -1093,7 +1093,7 @@ func c31Marathon(seed uint64, k int) *c31Plan {
 	}
 	p := &c31Plan{Mode: "gogo", Marathon: true, Threshold: 256, Threshold2: []uint64{256, 256, 1024, 0}[next(4)], Procs: []int{2, 4, 16}[next(3)], Seed: x}
 	nw := 2 + next(5)
-	per := ev.Scale(6000, 16000) / nw
+	per := ev.Scale(12000, 24000) / nw
 	for i := 0; i < nw; i++ {
 		p.Writers = append(p.Writers, c31Writer{Kind: []string{"greq", "greq", "chreq", "chdata"}[next(4)], N: per, Size: 8 + next(20)})
 	}
@@ -1193,7 +1193,7 @@ func TestC31(t *testing.T) {
 	} else {
 		// long histories first (volume of "writer keeps writing across the end of a key exchange")
 		shard, _ := ev.Shard()
-		for k := 0; k < ev.Scale(2, 10) && failed == "" && inconc == nil; k++ {
+		for k := 0; k < ev.Scale(4, 12) && failed == "" && inconc == nil; k++ {
 			runOne(c31Marathon(ev.Seed(), shard*100+k))
 		}
 		rapid.Check(t, func(rt *rapid.T) {
